@@ -56,6 +56,52 @@ def drawHash (seed : UInt64) : DrawFn Float := fun kind id pass ws =>
   let u := drawU seed kind id pass
   multinomialSample ws (u * lsum ws)
 
+/-! ## canonical infoset numbers for the draw keys
+
+The draw oracle of the correspondence is keyed by *(kind, infoset, pass)*.  Internal infoset
+indices are not part of the crate's contract, so both sides key the oracle (and report their draw
+logs and mutex labels) by the rank of the infoset in order of first appearance in a pre-order walk
+of the compact tree, which does not depend on how either side numbers its tables. -/
+
+partial def firstSeen : List (Node Float) → List Nat × List Nat × List Nat → List Nat × List Nat × List Nat
+  | [], acc => acc
+  | .term _ :: rest, acc => firstSeen rest acc
+  | .chance i ks :: rest, (c, a, b) => firstSeen (ks ++ rest) (if c.contains i then c else c ++ [i], a, b)
+  | .player true i ks :: rest, (c, a, b) => firstSeen (ks ++ rest) (c, if a.contains i then a else a ++ [i], b)
+  | .player false i ks :: rest, (c, a, b) => firstSeen (ks ++ rest) (c, a, if b.contains i then b else b ++ [i])
+
+structure Canon where
+  ch : Array Nat
+  one : Array Nat
+  two : Array Nat
+
+def rankArray (size : Nat) (seen : List Nat) : Array Nat := Id.run do
+  let mut out : Array Nat := Array.replicate size 0
+  let mut assigned : Array Bool := Array.replicate size false
+  let mut next := 0
+  for i in seen do
+    if i < size then
+      out := out.set! i next
+      assigned := assigned.set! i true
+      next := next + 1
+  for i in [0:size] do
+    if !assigned[i]! then
+      out := out.set! i next
+      next := next + 1
+  out
+
+def Canon.of (g : Game Float) : Canon :=
+  let (c, a, b) := firstSeen [g.root] ([], [], [])
+  ⟨rankArray g.chance.length c, rankArray g.p1.length a, rankArray g.p2.length b⟩
+
+def Canon.get (cn : Canon) (kind id : Nat) : Nat :=
+  let arr := if kind == 0 then cn.ch else if kind == 1 then cn.one else cn.two
+  if h : id < arr.size then arr[id] else id
+
+/-- the draw oracle keyed by canonical infoset numbers -/
+def drawCanon (cn : Canon) (seed : UInt64) : DrawFn Float := fun kind id pass ws =>
+  drawHash seed kind (cn.get kind id) pass ws
+
 /-! ## tokens -/
 
 abbrev P := StateT (Array String × Nat) (Except String)
@@ -212,8 +258,8 @@ def namedStr (n : Named Float) : String :=
   " ".intercalate (s!"{n.length}" :: n.map (fun e =>
     " ".intercalate (s!"{e.1} {e.2.length}" :: e.2.map (fun a => s!"{a.1} {fHex a.2}"))))
 
-def logStr (l : List (DrawRec Float)) : String :=
-  " ".intercalate (s!"{l.length}" :: l.reverse.map (fun r => s!"{r.kind} {r.id} {r.pass} {r.result} {fList r.weights}"))
+def logStr (cn : Canon) (l : List (DrawRec Float)) : String :=
+  " ".intercalate (s!"{l.length}" :: l.reverse.map (fun r => s!"{r.kind} {cn.get r.kind r.id} {r.pass} {r.result} {fList r.weights}"))
 
 /-- a dense strategy with its infoset and action labels (zero probabilities included) -/
 def fullNamed (infos : List PInfo) (σ : Strat Float) : String :=
@@ -224,7 +270,7 @@ def profStr (g : Game Float) (a b : Strat Float) : String :=
   s!"{fullNamed g.p1 a} {fullNamed g.p2 b}"
 
 def outStr (g : Game Float) (o : SolveOut Float) : String :=
-  s!"ok {o.iters} {extStr o.regOne} {extStr o.regTwo} {profStr g o.stratOne o.stratTwo} L {logStr o.log}"
+  s!"ok {o.iters} {extStr o.regOne} {extStr o.regTwo} {profStr g o.stratOne o.stratTwo} L {logStr (Canon.of g) o.log}"
 
 /-! ## conditioning: the smallest relative margin by which a discontinuous decision was taken
 
@@ -685,7 +731,7 @@ def cmd : P String := do
       let thr ← pThr
       let seed ← pNat
       let mode ← tok
-      let draw := drawHash seed.toUInt64
+      let draw := drawCanon (Canon.of g) seed.toUInt64
       if mode == "single" then
         if m == "F" then pure (outStr g (solveVanillaSingle g false p draw T thr))
         else if m == "S" then pure (outStr g (solveVanillaSingle g true p draw T thr))
@@ -705,7 +751,7 @@ def cmd : P String := do
       let T ← pNat
       let thr ← pThr
       let seed ← pNat
-      let draw := drawHash seed.toUInt64
+      let draw := drawCanon (Canon.of g) seed.toUInt64
       let s0 : SolveSt Float := SolveSt.init g
       if m == "E" then pure s!"ok {fHex (marginsExternal g p draw thr T 1 s0 fInf)}"
       else pure s!"ok {fHex (marginsVanilla g (m == "S") p draw thr T 1 s0 fInf)}"
@@ -714,10 +760,19 @@ def cmd : P String := do
       let p ← pParams
       let T ← pNat
       let seed ← pNat
-      let draw := drawHash seed.toUInt64
+      let cn := Canon.of g
+      let draw := drawCanon cn seed.toUInt64
       let passes := externalLockPasses g p draw T 1 (SolveSt.init g) []
+      let canonLock : LockId → LockId
+        | .chance i => .chance (cn.get 0 i)
+        | .player true i => .player true (cn.get 1 i)
+        | .player false i => .player false (cn.get 2 i)
+      let canonEv : LEv → LEv
+        | .acq l => .acq (canonLock l)
+        | .tryAcq l => .tryAcq (canonLock l)
+        | .rel l => .rel (canonLock l)
       pure (s!"ok {passes.length} " ++ " ".intercalate (passes.map (fun t =>
-        s!"{t.length} " ++ " ".intercalate (t.map levStr))))
+        s!"{t.length} " ++ " ".intercalate (t.map (fun e => levStr (canonEv e))))))
   else if c == "poolok" then do
     let ts ← pTraces
     pure s!"ok {poolOKb ts} {poolOKwhy ts}"
